@@ -8,7 +8,7 @@ PROPERTY = 'C15'
 LEVEL = 'exploration'
 RULE = ('session connect (with a signature), shell, stat, push of 3 WRTEs at maxdata 4096, pull; every bulk_write accepts all (default) / 1 / len-1 / half of the bytes and reports the count; '
         'all placements of <=k such deviations over the whole write sequence (stateless DFS), plus global per-call capacities {1, 7, 23, 24, 25, 4095}; both twins; oracle: whenever a call '
-        'returns normally the device model has received byte-for-byte the stream of the unlimited run up to that point (a short write must be completed or reported), results equal the '
+        'returns normally the device model has received byte-for-byte the stream of the unlimited run up to that point (a short write must be completed or reported) and at every moment the bytes received so far are a prefix of that stream (in order, without gaps, also when a call raises), results equal the '
         'unlimited run; plus whole sessions over real loopback TCP with 4 KiB socket buffers and a slow reader (must equal the in-memory session); non-trivial = at least one short write; distinct = distinct (twin, capacity / choice list)')
 ASSUMPTIONS = ['adbsim device model', 'the in-memory transport reports the accepted count exactly as socket.send / libusb bulkWrite do']
 CON = {'_sim': {'auth': {'first': 'token', 'sig': ['cnxn'], 'pub': 'cnxn'}}, '_keys': [0]}
@@ -23,6 +23,7 @@ _REF = {}
 
 def run_session(twin, ch, wcap, cap=None):
     cfg = scen.ops_cfg('two', 4096)
+    cfg['keep_rx'] = True
     if cap:
         cfg['wcap_global'] = cap
     s = Session(ch, cfg, twin=twin, wcap=wcap)
@@ -38,7 +39,7 @@ def run_session(twin, ch, wcap, cap=None):
             if r[0] != 'ok':
                 break
         raw = b''.join(frames_bytes(p) for w, p in s.env.events if w == 'H')
-        return {'res': res, 'marks': marks, 'parsed': raw, 'partial': s.env.dev.parser.partial() if s.env.dev else 0, 'err': s.env.dev.parser.error if s.env.dev else None,
+        return {'res': res, 'marks': marks, 'parsed': raw, 'rx': bytes(s.env.rx_raw), 'partial': s.env.dev.parser.partial() if s.env.dev else 0, 'err': s.env.dev.parser.error if s.env.dev else None,
                 'writes': s.env.write_calls, 'fs': scen.fs_view(s.env), 'issues': list(s.env.issues)}
     finally:
         s.finish()
@@ -78,6 +79,10 @@ def run_short(params, ch):
             viol.append({'msg': 'all calls returned normally but the byte stream the device received differs from the unlimited run (%s)' % (o['err'] or 'content',), 'sig': 'F1'})
         if o['fs'] != ref['fs']:
             viol.append({'msg': 'pushed file differs from the unlimited run'})
+    if not ref['rx'].startswith(o['rx']):
+        n = next((i for i, (a, b) in enumerate(zip(o['rx'], ref['rx'])) if a != b), min(len(o['rx']), len(ref['rx'])))
+        viol.append({'msg': 'the bytes the device received are not a prefix of the stream of the unlimited run: first difference at offset %d of %d (a gap or a repetition inside a message), '
+                            'results %r' % (n, len(o['rx']), [r[:2] if r[0] != 'ok' else 'ok' for r in o['res']])})
     dev = [c for c in ch.choices if c]
     return {'outcome': (tuple(r[:2] if r[0] != 'ok' else 'ok' for r in o['res']), o['writes'] - ref['writes']), 'viol': viol,
             'nontrivial': (twin, params.get('cap'), tuple(ch.choices)) if (dev or params.get('cap')) else None,
